@@ -343,3 +343,25 @@ def save_case(ctx, seed, mut):
     b = ctx.write("case-%s.mut" % tag, struct.pack("<IBQ", o, w, v))
     c = ctx.write("case-%s.faulted" % tag, apply_mutation(seed, o, w, v))
     return [a, b, c]
+
+
+def damaged_variants(rng, data, n=4):
+    """a few damaged forms of a valid file that its parser should refuse or survive: cut short, garbled in the middle, a foreign
+    file, nothing"""
+    out = []
+    for _ in range(n):
+        k = rng.random()
+        if k < 0.45 and len(data) > 8:
+            out.append(data[:rng.randrange(4, len(data))])
+        elif k < 0.8 and len(data) > 16:
+            b = bytearray(data)
+            p = rng.randrange(8, len(b))
+            for j in range(p, min(len(b), p + rng.choice([1, 4, 32]))):
+                b[j] = rng.randrange(256)
+            out.append(bytes(b))
+        elif k < 0.9:
+            out.append(rng.randbytes(rng.choice([1, 64, 3000])))
+        else:
+            out.append(b"")
+    return out
+
